@@ -90,3 +90,10 @@ func VerifParseFor(s string) ([]string, string, bool) {
 	vars, coll, err := parseFor(s)
 	return vars, coll, err == nil
 }
+
+// VerifExtractFrontMatter exposes extractFrontMatter's split of a template file: whether a front-matter block was
+// recognised, and the bytes that remain as the template body.
+func VerifExtractFrontMatter(content []byte) (bool, []byte, error) {
+	fm, rest, err := extractFrontMatter(content)
+	return fm != nil, rest, err
+}
